@@ -35,6 +35,7 @@ func linRunCmd(args []string) int {
 	muteStdout()
 	wal.DisableRecoveryLogs = true
 	conc := Conc{Class: "ascii"}
+	verifhook.Emit("h.reset", fmt.Sprintf("\"a\":0,\"b\":0,\"sync\":%d", cc.SyncMode))
 	eng, err := openEngine(*dir, &cc)
 	if err != nil {
 		fmt.Fprintln(stderr, err)
